@@ -2,6 +2,7 @@
 from __future__ import annotations
 
 import math
+import re
 import random
 
 import numpy as np
@@ -110,7 +111,8 @@ def check(case):
                     cm.note(res, f"skipped:{bk}:remove_unused-module-{e.stage}-fails(C12)")
                     continue
                 res["evals"] += 1
-                k = f"generation-raises:{cm.exc_site(e.exc)}" if e.stage == "codegen" else f"{e.stage}-raises:{cm.exc_name(e.exc) if e.stage != 'compile' else cm.compile_key(e.exc, set(ref.states) | set(ref.params) | set(ref.assigns))}"
+                nons = ":floor-or-mod-of-the-own-state" if any(ref.nonsmooth_of_own_state(s_) for s_ in ref.states) else ""
+                k = f"generation-raises{nons}:{cm.exc_site(e.exc)}" if e.stage == "codegen" else f"{e.stage}-raises:{cm.exc_name(e.exc) if e.stage != 'compile' else cm.compile_key(e.exc, set(ref.states) | set(ref.params) | set(ref.assigns))}"
                 add(k, f"{bk} generalized_rush_larsen cannot be generated ({e.stage}) although the plain module can", {"ode": text, "deltas": [delta], "points": []}, "scheme function", cm.exc_name(e.exc), str(e),
                     base=k)
                 break
@@ -171,6 +173,17 @@ def check(case):
                                 add("non-finite" + zb, f"GRL value for {s} is {v} although f={f}, g={g} are finite", inp, want, v, f"state {s}, branch {branch}")
                             elif math.isfinite(other) and abs(v - other) <= 1e-9 * (abs(x) + abs(other - x)) + 8e-16 * abs(f / g if g else 0):
                                 kind = "delta-not-honoured:rl-applied-below-delta" if branch == "euler" else "delta-not-honoured:euler-applied-above-delta"
+                                if branch == "euler":
+                                    # why: read the guard of this state in the generated text - absent (the listed finding: the generator decided
+                                    # the linearisation can never be zero), present with another threshold than the requested delta, or present
+                                    gm = re.search(rf"abs\(d{re.escape(s)}_dt_linearized\)\s*>\s*([-+0-9.eE]+)", m.code)
+                                    if gm is None:
+                                        kind += ":guard-omitted"
+                                    else:
+                                        try:
+                                            kind += ":guard-present" if float(gm.group(1)) == float(delta) else ":guard-uses-another-delta"
+                                        except ValueError:
+                                            kind += ":guard-present"
                                 add(kind + zb, f"|g|={abs(g)} vs delta={delta}: expected the {branch} update for {s}", inp, want, v, f"f={f} g={g} rate: {ref.assigns['d' + s + '_dt'].expr_text[:100]}")
                             else:
                                 gt = ref.own_derivative(s, pt["t"], pt["states"], pt["params"], total=True)[1]
